@@ -1251,3 +1251,66 @@ func (e *Engine) funcByBase(key string) *ssa.Function {
 	}
 	return found
 }
+
+// enumCasesReturning: the constants K of the enum type for which fn can
+// return `pol` in result #idx on a path consistent with subject == K (edges
+// that compare the subject with a constant are followed only when they agree
+// with K). Independent of the if/switch/multi-value-case shape.
+func (e *Engine) enumCasesReturning(fn *ssa.Function, enumT types.Type, pkg *types.Package, subject VM, idx int, pol bool) map[string]bool {
+	out := map[string]bool{}
+	if enumT == nil || pkg == nil {
+		return out
+	}
+	consistent := func(fs []Fact, k *types.Const) bool {
+		for _, f := range fs {
+			b, ok := f.V.(*ssa.BinOp)
+			if !ok || (b.Op != token.EQL && b.Op != token.NEQ) {
+				continue
+			}
+			var c *ssa.Const
+			if cc, ok := b.Y.(*ssa.Const); ok && subject(b.X) {
+				c = cc
+			} else if cc, ok := b.X.(*ssa.Const); ok && subject(b.Y) {
+				c = cc
+			}
+			if c == nil || c.Value == nil || !types.Identical(c.Type(), enumT) {
+				continue
+			}
+			same := c.Value.ExactString() == k.Val().ExactString()
+			saysEqual := (b.Op == token.EQL) == f.Pol
+			if same != saysEqual {
+				return false
+			}
+		}
+		return true
+	}
+	for _, n := range pkg.Scope().Names() {
+		k, ok := pkg.Scope().Lookup(n).(*types.Const)
+		if !ok || !types.Identical(k.Type(), enumT) {
+			continue
+		}
+		target := func(in ssa.Instruction) bool {
+			ret, ok := in.(*ssa.Return)
+			if !ok || idx >= len(ret.Results) {
+				return false
+			}
+			v := retOperand(ret, idx)
+			if cb, isC := isConstBool(v); isC {
+				return cb == pol
+			}
+			for _, alt := range valueAlternatives(v, pol, 0) {
+				if consistent(expandFacts(alt), k) {
+					return true
+				}
+			}
+			return false
+		}
+		res := e.findPath(fn, nil, target, nil, func(p, s *ssa.BasicBlock) bool {
+			return consistent(expandFacts(edgeOnly(p, s)), k)
+		})
+		if res.Found {
+			out[n] = true
+		}
+	}
+	return out
+}
